@@ -155,7 +155,7 @@ class Gen:
         m = {}
         for k in keys:
             if k == 'confidenceScore':
-                m[k] = self.rng.choice(['0.9', '1.0', '0.25', '1', '0.8700000047683716',
+                m[k] = self.rng.choice(['0.9', '1.0', '0.25', '1', '0.0', '0.8700000047683716',
                                         '0.123456789', '2.5e-07'])
             else:
                 m[k] = self.s(attr=True)
@@ -357,7 +357,8 @@ class Gen:
                 if g.chance(g.p['p_dup_rel']):
                     r2 = dict(rel)
                     r2['meta'] = dict(rel['meta'] or {})
-                    r2['meta']['type'] = 'dup-' + g.rng.choice(['a', 'b'])
+                    # (an empty dc:type is a value too: it differs from an absent one)
+                    r2['meta']['type'] = g.rng.choice(['dup-a', 'dup-b', 'dup-a', 'dup-b', ''])
                     ss['relations'].append(r2)              # differs only in dc:type
         if not g.chance(g.p['p_cycle']):
             self._break_hyper_cycles(lex)
@@ -944,3 +945,62 @@ def generate_many_ext(rng: random.Random, n=None) -> dict:
             group = []
     return {'profile': {'many_ext': n}, 'lexicons': lexicons, 'order': order,
             'resources': resources, 'ili_files': []}
+
+
+def generate_fat(rng: random.Random, k=None) -> dict:
+    """A universe in which single PARENTS have many children - more than 127/128/255/256 of
+    them: a synset with *k* member senses declared in shuffled order, an entry with *k* forms,
+    a sense with *k* examples and counts, a synset with *k* definitions, examples and
+    relations (sizes between the small random worlds and the huge flat ones)."""
+    k = k or rng.choice([130, 260])
+    lex = {'id': 'fat', 'version': '1', 'label': 'Fat', 'language': 'en',
+           'email': 'm@example.com', 'license': 'MIT', 'meta': None, 'extends': None,
+           'requires': [], 'entries': [], 'synsets': [], 'frames': []}
+
+    def synset(sid, **kw):
+        d = {'id': sid, 'ili': '', 'partOfSpeech': 'n', 'meta': None, 'definitions': [],
+             'relations': [], 'examples': []}
+        d.update(kw)
+        return d
+
+    def entry(eid, form, senses, forms=()):
+        return {'id': eid, 'lemma': {'writtenForm': form, 'partOfSpeech': 'n', 'tags': [],
+                                     'pronunciations': []},
+                'forms': list(forms), 'frames': [], 'meta': None, 'senses': senses}
+
+    def sense(sid, ss, **kw):
+        d = {'id': sid, 'synset': ss, 'meta': None, 'relations': [], 'examples': [],
+             'counts': []}
+        d.update(kw)
+        return d
+    # many members
+    members = ['fat-m%d' % i for i in range(k)]
+    order = list(members)
+    rng.shuffle(order)
+    lex['synsets'].append(synset('fat-many-members', members=order))
+    for i in range(k):
+        lex['entries'].append(entry('fat-me%d' % i, 'member%d' % i,
+                                    [sense('fat-m%d' % i, 'fat-many-members')]))
+    # many forms / examples / counts
+    lex['synsets'].append(synset('fat-plain'))
+    lex['entries'].append(entry(
+        'fat-forms', 'manyforms',
+        [sense('fat-fk', 'fat-plain',
+               examples=[{'text': 'example %d' % i, 'meta': None} for i in range(k)],
+               counts=[{'value': (i * 7919) % 1000, 'meta': None} for i in range(k)])],
+        forms=[{'writtenForm': 'form%d' % i, 'id': 'fat-f%d' % i,
+                'tags': [{'text': 't%d' % i, 'category': 'c'}], 'pronunciations': []}
+               for i in range(k)]))
+    # many definitions / examples / relations of one synset
+    targets = ['fat-t%d' % i for i in range(k)]
+    for t in targets:
+        lex['synsets'].append(synset(t))
+    lex['synsets'].append(synset(
+        'fat-hub',
+        definitions=[{'text': 'definition %d' % i, 'meta': None} for i in range(k)],
+        examples=[{'text': 'synset example %d' % i, 'meta': None} for i in range(k)],
+        relations=[{'target': t, 'relType': 'hyponym' if i % 2 else 'also', 'meta': None}
+                   for i, t in enumerate(targets)]))
+    return {'profile': {'fat': k}, 'lexicons': {'fat:1': lex}, 'order': ['fat:1'],
+            'resources': [{'name': 'r0', 'lmf_version': '1.1', 'lexicons': ['fat:1']}],
+            'ili_files': []}
